@@ -2,7 +2,7 @@
 import glob, hashlib, os, random, re, sys
 from collections import Counter
 sys.path.insert(0, os.path.dirname(os.path.abspath(__file__)))
-import gen, pipeline, build
+import gen, pipeline, build, gen_containers
 
 VERIF = build.VERIF
 CORPUS = os.path.join(VERIF, 'corpus')
@@ -58,12 +58,17 @@ PROPS = {
                 gen=lambda seed, tier: gen.gen_def_cases(seed, 20000 if tier == 'thorough' else 2500), flavours=['c'],
                 rule='random (mostly defective) terminal/rule lists through the callbacks, every defect class alone and in pairs, strict in {0,1}; return code vs model, symbol flags and rules vs model',
                 assumptions=COMMON_ASSUME),
+    'C19': dict(level='proof', theorem_modules=['C19'], min_theorems=12, tags=['C19'], crash_counts=False, kind='containers',
+                gen=lambda seed, tier: gen_containers.gen_cases(seed, 12000 if tier == 'thorough' else 1500), flavours=['c', 'cxx'],
+                rule='random op sequences (<= 400 ops) on hash table (small moduli force collisions, sizes force several expansions, remove/re-insert reuse deleted slots, empty), object stack (sizes around segment boundaries, objects larger than a segment), VLO (growth boundaries); C and C++ builds; every query result vs the Lean model, table size/element count as deep tie',
+                assumptions=COMMON_ASSUME[1:] + ['hash function and equality of the harness are `v % modulus` and identity; memcpy/realloc behave as specified',
+                                                 'the models (HashTab/ObjStack/Vlo.lean) are hand-written; the refinement theorems are about them; tie = sampled op sequences']),
 }
 
 
-def corpus_cases(pid):
+def corpus_cases(pid, sub=''):
     out = []
-    for p in sorted(glob.glob(os.path.join(CORPUS, '*.txt'))):
+    for p in sorted(glob.glob(os.path.join(CORPUS, sub, '*.txt'))):
         lines = [l.rstrip('\n') for l in open(p) if not l.startswith('#')]
         out += pipeline.split_cases(lines)
     return out
@@ -89,14 +94,14 @@ def case_features(stats):
 def run_property(pid, P, cases, tier, seed, replay=False):
     tags = set(P['tags'])
     if cases is None:
-        cases = corpus_cases(pid) + P['gen'](seed, tier)
+        cases = corpus_cases(pid, 'containers' if P.get('kind') == 'containers' else '') + P['gen'](seed, tier)
     failures = []
     cov = dict(evaluations=0, distinct_nontrivial=0, rule=P['rule'], samples=[], verdicts={}, features={})
     seen = set()
     feats = Counter()
     vcount = Counter()
     for flavour in P.get('flavours', ['c']):
-        res = pipeline.run_cases(cases, flavour)
+        res = pipeline.run_cases(cases, flavour, kind=P.get('kind', 'yaep'))
         bycase = {}
         for v in res.verdicts:
             relevant = v.prop in tags or (P.get('crash_counts') and v.prop == 'C12')
@@ -126,7 +131,7 @@ def run_property(pid, P, cases, tier, seed, replay=False):
         extra = []
         for s2 in range(3):
             extra += P['gen'](seed * 1000 + 17 + s2, tier)
-        res = pipeline.run_cases(extra, P.get('flavours', ['c'])[0])
+        res = pipeline.run_cases(extra, P.get('flavours', ['c'])[0], kind=P.get('kind', 'yaep'))
         found = [v for v in res.verdicts if (v.prop in tags or v.prop == 'C12') and not v.ok and v.kind == 'K']
         note = 'searched %d more cases' % len(extra)
         for v in found[:3]:
